@@ -123,6 +123,15 @@ FaultedEvents(mm, es, ft) ==
     \*  "without splitting existing text")
     [] ft = "unknownFirst" -> IF HasWild(mm) \/ HasText(mm) THEN {} ELSE {<<es[1]>> \o UnknownSub \o SubSeq(es, 2, Len(es))}
     [] ft = "unknownLast"  -> IF HasWild(mm) THEN {} ELSE {SubSeq(es, 1, Len(es) - 1) \o UnknownSub \o <<es[Len(es)]>>}
+    \* an element whose name IS known - as an unwrapped field of the same class - placed inside a
+    \* wrapper element, where only the wrapped field is expected: unknown there
+    [] ft = "siblingInWrapper" ->
+         {SubSeq(es, 1, k) \o << [e |-> "start", name |-> nm, xsiType |-> NoQ, xsiNil |-> NONE],
+                                 [e |-> "end", name |-> nm, badValue |-> FALSE, unknownAttr |-> FALSE, missingReq |-> FALSE] >>
+          \o SubSeq(es, k + 1, Len(es)) :
+            k \in {j \in DOMAIN es : es[j].e = "start" /\ es[j].name[2] = "wrap"},
+            nm \in {<<ElemNs(mm, mm.fields[j]), mm.fields[j].name>> : j \in {jj \in DOMAIN mm.fields :
+                        mm.fields[jj].kind = "Element" /\ ~mm.fields[jj].wrapper /\ mm.fields[jj].tp \in {"str", "int", "bool"}}}}
     [] ft = "unknownAttr"  -> {[es EXCEPT ![Len(es)].unknownAttr = TRUE]}
     [] ft = "xsiAttr"      -> {es}     \* an attribute in the XSI namespace is always tolerated
     [] ft = "badValue"     -> {[es EXCEPT ![k].badValue = TRUE] : k \in IntElemPositions(mm, es)}
@@ -178,7 +187,7 @@ InvProgress == (i = Len(evs) /\ p.st = "run") => FALSE
 InvValidAccepted == (fault = "none" /\ Terminal) => p.st = "done"
 \* C10
 InvStrictUnknown ==
-  (fault \in {"unknownFirst", "unknownLast"} /\ Terminal) =>
+  (fault \in {"unknownFirst", "unknownLast", "siblingInWrapper"} /\ Terminal) =>
       IF cfg.unknownProps THEN p.st = "err" /\ p.err = "ParserError" ELSE p.st = "done"
 InvXsiAttr == (fault = "xsiAttr" /\ Terminal) => p.st = "done"
 InvUnknownAttr ==
